@@ -16,13 +16,11 @@ p = os.path.join(mir.V, "tables", "inventory.json")
 old = json.load(open(p)) if os.path.exists(p) else {}
 new = {}
 from collections import Counter
-cnt = Counter((s.fn, s.kind, s.term) for s in sites if s.status == "open")
-for (fn, kind, term), n in sorted(cnt.items()):
-    prev = None
-    for r in old.get(fn, []):
-        if r["kind"] == kind and r["term"] == term:
-            prev = r
-    new.setdefault(fn, []).append({"kind": kind, "term": term, "n": n, "reason": prev["reason"] if prev else "UNREVIEWED"})
+# one candidate row per (file, function, kind, named term); reasons.py turns them into table rows keyed by
+# (file, kind, name-abstracted term)
+cnt = Counter((s.body.file, s.fn, s.kind, s.term, s.nterm) for s in sites if s.status == "open")
+for (file, fn, kind, term, nterm), n in sorted(cnt.items()):
+    new.setdefault(file, []).append({"fn": fn, "kind": kind, "term": term, "nterm": nterm, "n": n, "reason": "UNREVIEWED"})
 json.dump(new, open(p, "w"), indent=1, sort_keys=True)
 print(stats, "functions:", len(new), "entries:", sum(len(v) for v in new.values()),
       "unreviewed:", sum(1 for v in new.values() for r in v if r["reason"] == "UNREVIEWED"))
